@@ -310,13 +310,28 @@ using Thread = tlx::std::thread;
 struct Conc {
     int sure_handles = 0; // handles that certainly exist: counted after acquisition, un-counted BEFORE release
     int destroyed = 0;
+    int copies_made = 0, copies_destroyed = 0; // private copies created by unify()
 } conc;
 
 struct Shared : public tlx::ReferenceCounter {
     unsigned canary = 0xFEEDu;
+    bool is_root; // the one object whose handles are accounted in conc.sure_handles; unify() makes private copies
+    Shared() : is_root(true) {}
+    //! unify() copy-constructs a private copy from the shared object: the source must stay alive for the whole
+    //! copy (the unifying handle still refers to it), also when every OTHER owner lets go meanwhile
+    Shared(const Shared& o) : tlx::ReferenceCounter(o), is_root(false) {
+        vsched::obs("copying-shared-object");
+        if (o.canary != 0xFEEDu) pbt::fatal("C12/destroyed-while-referenced", "shared object was destroyed while unify() of a handle that still referred to it was copying it");
+        vsched::obs("copied-shared-object");
+        conc.copies_made++;
+    }
     ~Shared() {
         if (canary != 0xFEEDu) pbt::fatal("C12/double-destroy", "shared object destroyed twice");
         canary = 0;
+        if (!is_root) {
+            conc.copies_destroyed++;
+            return;
+        }
         if (conc.sure_handles != 0) {
             std::ostringstream os;
             os << "shared object destroyed while " << conc.sure_handles << " handle(s) still own it";
@@ -327,7 +342,7 @@ struct Shared : public tlx::ReferenceCounter {
 };
 using SH = tlx::CountingPtr<Shared>;
 
-enum COp { C_COPY_DROP, C_COPY_ASSIGN, C_MOVE_AROUND, C_EXTRA_COPY };
+enum COp { C_COPY_DROP, C_COPY_ASSIGN, C_MOVE_AROUND, C_EXTRA_COPY, C_UNIFY_OWN, C_UNIFY_COPY, C_SWAP_DROP, C_NOPS };
 
 void acquire_note() {
     vsched::obs("acquired");
@@ -348,28 +363,31 @@ void conc_execute(const std::vector<std::vector<int>>& scripts, int main_delay) 
     vsched::Atomic<int> dummy(0);
     {
         SH root(new Shared());
+        const Shared* rootp = root.get();
         conc.sure_handles = 1;
         std::vector<Thread> th;
         for (int t = 0; t < nthreads; ++t) {
             // the thread receives its own handle (copied on the creating thread)
             SH mine(root);
             conc.sure_handles++;
-            th.emplace_back([&scripts, &dummy, t, own = std::move(mine)]() mutable {
+            th.emplace_back([&scripts, &dummy, t, rootp, own = std::move(mine)]() mutable {
+                // own_root: `own` refers to the accounted root object (false once unify() gave it a private copy;
+                // the notes below concern only handles of the root)
+                bool own_root = true;
                 for (int op : scripts[(size_t)t]) {
                     switch (op) {
                     case C_COPY_DROP: {
                         SH c(own);
-                        acquire_note();
+                        if (own_root) acquire_note();
                         (void)dummy.load();
-                        release_note();
+                        if (own_root) release_note();
                         c.reset();
                         break;
                     }
                     case C_COPY_ASSIGN: {
                         SH c;
                         c = own;
-                        acquire_note();
-                        release_note();
+                        if (own_root) acquire_note(), release_note();
                         c = SH(); // move-assign an empty handle: releases
                         break;
                     }
@@ -378,17 +396,41 @@ void conc_execute(const std::vector<std::vector<int>>& scripts, int main_delay) 
                         own = std::move(c);
                         break;
                     }
+                    case C_UNIFY_OWN: {
+                        // the thread's only handle becomes the owner of a private copy (or stays, if it is the
+                        // last owner by now): all other owners live in OTHER threads and may let go meanwhile
+                        if (own_root) release_note();
+                        own.unify();
+                        SCHED_CHECK(own.get() != nullptr && own.unique(), "C12/unify-not-unique", "after unify() the handle is not the only owner of its object");
+                        if (own_root && own.get() == rootp) acquire_note(); // was the last owner: nothing copied
+                        else own_root = false;
+                        break;
+                    }
+                    case C_UNIFY_COPY: {
+                        SH c(own);
+                        c.unify(); // own still refers to the source: always a copy
+                        SCHED_CHECK(c.get() != own.get() && c.unique(), "C12/unify-not-unique", "unify() of a second handle did not produce a private object");
+                        break;
+                    }
+                    case C_SWAP_DROP: {
+                        SH c(own), e;
+                        if (own_root) acquire_note();
+                        c.swap(e); // e owns, c empty
+                        std::swap(c, e); // back (move construction + two move assignments)
+                        if (own_root) release_note();
+                        c = SH();
+                        break;
+                    }
                     default: {
                         SH c(own), e(c);
-                        acquire_note();
-                        acquire_note();
-                        release_note();
+                        if (own_root) acquire_note(), acquire_note(), release_note();
                         c.reset();
-                        release_note();
+                        if (own_root) release_note();
                         // e released by scope exit
                     }
                     }
                 }
+                if (!own_root) return;
                 release_note(); // `own` is released when the thread's callable is destroyed
             });
         }
@@ -399,6 +441,7 @@ void conc_execute(const std::vector<std::vector<int>>& scripts, int main_delay) 
     }
     SCHED_CHECK(conc.destroyed == 1, "C12/destroy-count", "shared object destroyed " << conc.destroyed << " times after all handles are gone");
     SCHED_CHECK(conc.sure_handles == 0, "harness/handle-accounting", "sure_handles=" << conc.sure_handles);
+    SCHED_CHECK(conc.copies_made == conc.copies_destroyed, "C12/destroy-count", "unify() made " << conc.copies_made << " private copies, " << conc.copies_destroyed << " were destroyed after all handles are gone");
 }
 } // namespace
 
@@ -407,7 +450,7 @@ PBT_PROPERTY(counting_ptr_conc) {
     std::vector<std::vector<int>> scripts((size_t)nthreads);
     for (auto& sc : scripts) {
         int n = (int)src.range(1, 4);
-        for (int i = 0; i < n; ++i) sc.push_back((int)src.range(0, 3));
+        for (int i = 0; i < n; ++i) sc.push_back((int)src.range(0, C_NOPS - 1));
     }
     int main_delay = (int)src.range(0, 3);
     PBT_LOG("threads=" << nthreads << " main_delay=" << main_delay << "\n");
@@ -432,6 +475,9 @@ const std::vector<ConcTemplate>& conc_templates() {
         {"2 threads: copy-assign | move-around, creator drops after 1 step", 4, 1, {{C_COPY_ASSIGN}, {C_MOVE_AROUND}}},
         {"2 threads: two copies | copy+drop", 3, 0, {{C_EXTRA_COPY}, {C_COPY_DROP}}},
         {"3 threads: copy+drop each", 3, 0, {{C_COPY_DROP}, {C_COPY_DROP}, {C_COPY_DROP}}},
+        {"2 threads: unify own | copy+drop, creator drops immediately", 4, 0, {{C_UNIFY_OWN}, {C_COPY_DROP}}},
+        {"2 threads: unify own | unify own, creator drops after 1 step", 4, 1, {{C_UNIFY_OWN}, {C_UNIFY_OWN}}},
+        {"2 threads: unify a copy | swap+drop", 3, 0, {{C_UNIFY_COPY}, {C_SWAP_DROP}}},
     };
     return T;
 }
